@@ -223,6 +223,29 @@ fn wide(args: &Args) -> i32 {
     let mut rng = Rng::new(args.num("seed", 1) ^ (bits as u64) << 32);
     let mut sink = Sink::create(&args.str("out", "c01-wide.ndjson"));
     let f: fn(&str, &[u128; 4], &[i128; 4]) -> Out = if bits == 128 { eval128_wide } else { eval64_wide };
+    // deterministic type-limit preamble for the two-operand division helpers: dividends at and just
+    // below the type maximum (where `a + d` overflows) with small divisors, incl. exact multiples
+    let max: u128 = if bits == 128 { u128::MAX } else { u64::MAX as u128 };
+    let smax: i128 = if bits == 128 { i128::MAX } else { i64::MAX as i128 };
+    for (op, kinds) in OPS.iter().filter(|(o, _)| *o == "round_up_div" || *o == "round_up_mag_div") {
+        for k in 0..4u128 {
+            for d in 1..=4u128 {
+                let mut au = [0u128; 4];
+                let mut asg = [0i128; 4];
+                if *op == "round_up_div" {
+                    au[0] = max - k;
+                    au[1] = d;
+                    emit(&mut sink, op, bits, kinds, &au, &asg, true, f);
+                } else {
+                    au[0] = d;
+                    asg[1] = smax - k as i128;
+                    emit(&mut sink, op, bits, kinds, &au, &asg, true, f);
+                    asg[1] = -(smax - k as i128);
+                    emit(&mut sink, op, bits, kinds, &au, &asg, true, f);
+                }
+            }
+        }
+    }
     for t in 0..n {
         let (op, kinds) = OPS[(t as usize) % OPS.len()];
         let mut au = [0u128; 4];
